@@ -20,8 +20,16 @@ def refOf (j : Json) : ORef := ⟨nat j "uid", triOf (str j "ctrl"), triOf (str 
 def refJson (r : ORef) : Json :=
   Json.mkObj [("uid", .num r.uid), ("ctrl", .str (triStr r.controller)), ("block", .str (triStr r.block))]
 
+def tlsOf (s : String) : Tls :=
+  match s with
+  | "noName" => .noName
+  | "present" => .present
+  | "missing" => .missing
+  | "empty" => .empty
+  | _ => .noRuntime
+
 def parentOf (j : Json) : Parent :=
-  ⟨nat j "uid", str j "label", (arr j "owners").map fun r => ⟨str r "name", refOf r⟩⟩
+  ⟨nat j "uid", str j "label", (arr j "owners").map fun r => ⟨str r "name", refOf r⟩, tlsOf (str j "tls")⟩
 
 def outcomeOf (s : String) : Outcome :=
   match s with
@@ -35,6 +43,7 @@ def phaseOf (s : String) : Phase :=
   match s with
   | "get" => .get
   | "dry" => .dry
+  | "tls" => .tls
   | _ => .real
 
 /-- the first matching fault wins (as in the harness) -/
@@ -107,7 +116,7 @@ def runStep (a : Acc) (st : Json) : Acc :=
   let conc := nat st "conc"
   let s0 : Store := { a.sys.store with log := [] }
   let op := str st "op"
-  let objs := (arr st "objs").map fun j => (⟨str j "key", nat j "body"⟩ : Desired)
+  let objs := (arr st "objs").map fun j => (⟨str j "key", nat j "body", bool j "conv"⟩ : Desired)
   let ranL := (arr st "ran").map fun j => j.getBool?.toOption.getD false
   let ran : Nat → Bool := fun i => ranL.getD i false
   let refsBefore := a.sys.refs p.uid
@@ -123,7 +132,8 @@ def runStep (a : Acc) (st : Json) : Acc :=
     else
       let (s1, r) := establish rejects fault p control s0 objs (nats st "vorder") (nats st "eorder")
       match r with
-      | .ok ks => (⟨s1, a.sys.refs⟩, "ok", (ks.mergeSort (fun x y => nameOfKey x.key ≤ nameOfKey y.key)).map refObsJson)
+      | .ok ks => (⟨s1, a.sys.refs⟩, "ok", (ks.mergeSort (fun x y => nameOfKey x.key < nameOfKey y.key ||
+            (nameOfKey x.key == nameOfKey y.key && (!x.kinded || y.kinded)))).map refObsJson)
       | .err _ => (⟨s1, a.sys.refs⟩, "err", [])
       | .crash => (⟨s1, a.sys.refs⟩, "crash", [])
   let s1 := sys1.store
@@ -139,6 +149,7 @@ def runStep (a : Acc) (st : Json) : Acc :=
   -- model-side monitor: all-or-nothing evaluated on the model's own run
   let establishing := op == "establish" || (op == "reconcile" && (control || refsBefore.isEmpty))
   let blocked := establishing && objs.any fun d =>
+      (control && d.needsCA && p.tls != .present) ||
       match s0.get d.key with
       | some cur =>
         (control && isBlockedBy p cur) || rejK.contains d.key ||
